@@ -36,7 +36,7 @@ TABLE['C01'] = dict(
     ])
 
 TABLE['C02'] = dict(
-    imports=[A + 'Corollaries', A + 'Assembly', A + 'Glue', A + 'BridgeBC', A + 'MomentsThm', A + 'RewardsThm', A + 'EndToEnd2'],
+    imports=[A + 'Corollaries', A + 'Assembly', A + 'Glue', A + 'BridgeBC', A + 'MomentsThm', A + 'RewardsThm', A + 'EndToEnd2', A + 'EndToEnd3'],
     summary='Proved for all inputs: block-counting generator = projection of the labelled coalescent on typed blocks (all three '
             'models incl. multiple mergers), matrix rows represent it, equal moments for SFS rewards; padding puts bin i at '
             'index i with zeros at 0 and n; cov is the symmetrised second moment minus the outer product of means. '
@@ -60,10 +60,12 @@ TABLE['C02'] = dict(
         ('folded_reward', 'PG.folded_eq_fold', 'folded reward = unfolded i plus unfolded n-i, once if equal'),
         ('end_to_end_sfs', 'PG.EndToEnd.sfs_moment_call_eq_labelled', 'CAPSTONE (SFS route): the padded vector SFSDistribution.moment(k, rewards, start, end, center, permute) returns, bin by bin through CombinedReward([r, SFS_i]) on the block-counting graph, equals the padded vector of labelled typed-block combinations; all orders k'),
         ('end_to_end_sfs_unfolded', 'PG.EndToEnd.unfolded_sfs_moment_call_eq_labelled', 'specialised to the unfolded spectrum'),
+        ('end_to_end_sfs_accumulate', 'PG.EndToEnd.sfs_accumulate_call_vector_eq_labelled', 'CAPSTONE: the (n+1) x |times| matrix SFSDistribution.accumulate returns (zero row, one row per bin, zero padding; any list of non-negative times) equals entrywise the labelled typed-block combinations'),
+        ('end_to_end_sfs_cov', 'PG.EndToEnd.sfs_cov_eq_labelled', 'CAPSTONE: SFSDistribution.cov ((X + X^T)/2 - mu mu^T from ordered uncentred cross moments) equals the same expression of labelled moments; symmetric (covSFSK_symm)'),
     ])
 
 TABLE['C03'] = dict(
-    imports=[A + 'TwoLocusInit', A + 'Corollaries', A + 'MeanIncrement', A + 'Assembly', A + 'Glue', A + 'Bridge', A + 'BridgeTwoLocus', A + 'RewardsThm', A + 'EndToEnd2'],
+    imports=[A + 'TwoLocusInit', A + 'Corollaries', A + 'MeanIncrement', A + 'Assembly', A + 'Glue', A + 'Bridge', A + 'BridgeTwoLocus', A + 'RewardsThm', A + 'EndToEnd2', A + 'EndToEnd3'],
     summary='Proved: cdf of the code chain = cdf of the labelled chain (lump_cdf + bridges, one and two loci); cdf in [0,1] and '
             'non-decreasing along any extension of the factor list (from the four laws); the sorted sweep and `_update` are '
             'direct evaluation, also exactly on epoch boundaries; the bisection returns m with |F m - q| <= precision. '
@@ -87,6 +89,7 @@ TABLE['C03'] = dict(
         ('two_locus_generator', 'PG.genOf_transit_two_locus', 'two-locus generator of the code on non-absorbing states'),
         ('end_to_end_cdf', 'PG.EndToEnd.cdf_call_eq_labelled', 'CAPSTONE (cdf route): cdf on ANY list of non-negative times (unsorted, repeated) returns entrywise the cdf of the labelled process; a negative time raises (cdf_call_error_iff)'),
         ('end_to_end_cdf_demography', 'PG.EndToEnd.cdf_with_demography', 'with the epochs produced by the demography model'),
+        ('end_to_end_cdf_two_locus', 'PG.EndToEnd.cdf_two_locus_eq_labelled', 'CAPSTONE: the two-locus tree_height.cdf on any list of non-negative times is the cdf of the labelled ARG'),
     ])
 
 TABLE['C04'] = dict(
@@ -202,7 +205,7 @@ TABLE['C07'] = dict(
     ])
 
 TABLE['C08'] = dict(
-    imports=[A + 'DemePerm', A + 'VanLoan', A + 'RewardsThm', A + 'Labelled', A + 'ConfigThm', A + 'EndToEnd'],
+    imports=[A + 'DemePerm', A + 'VanLoan', A + 'RewardsThm', A + 'Labelled', A + 'ConfigThm', A + 'EndToEnd', A + 'EndToEnd3'],
     summary='Proved: relabelling states by any bijection leaves every moment and cdf unchanged (perm_accum / perm_cdf, E_reindex); '
             'the labelled generator is invariant under permutation of particles; deme rewards sum to one. The code model `transit` is equivariant under permutation of the deme axis (transit_lineage_equivariant) and the moments / cdf on the BFS graphs the code builds are invariant (C08_moments_perm, C08_cdf_perm); '
             'the input glue from the user\'s containers to the axis is modelled and proved for every listing order, omission of unsampled demes and every iteration order of the Python set (ConfigThm). Hash-seed independence of the real interpreter is exercised.',
@@ -232,6 +235,8 @@ TABLE['C08'] = dict(
         ('end_to_end_named', 'PG.EndToEnd.moment_call_named_invariant', 'CAPSTONE: two listings of the same named input (any order in each container, unsampled demes listed or omitted, any set order) make moment(...) return the same value for rewards given BY NAME, for every call and call-layer variant, exceptions included'),
         ('end_to_end_named_labelled', 'PG.EndToEnd.moment_call_named_eq_labelled', 'and that value is the labelled-process combination for the first listing'),
         ('end_to_end_named_instance', 'PG.EndToEnd.named_invariant_instance', 'a concrete two-deme instance with every dict reversed'),
+        ('end_to_end_named_both_runs', 'PG.EndToEnd.named_invariant_both_runs_with_demography', 'CAPSTONE: both listings driven by the epoch generator: a re-listed input generates literally the same event list (Relisted.toEvents_eq), the same epoch boundaries and name-permuted tables, and moment(...) returns the same value for rewards given by name'),
+        ('relisted_same_events', 'PG.EndToEnd.Relisted.toEvents_eq', 'listing order, omission of unsampled demes and set order do not change the translated event list'),
     ])
 
 TABLE['C09'] = dict(
@@ -308,7 +313,7 @@ TABLE['C11'] = dict(
     ])
 
 TABLE['C12'] = dict(
-    imports=[A + 'Corollaries', A + 'DemePerm', A + 'Conservation', A + 'RewardsThm', A + 'SampleConsistency', A + 'Marginal', A + 'MomentsThm', A + 'MarginalsThm'],
+    imports=[A + 'Corollaries', A + 'DemePerm', A + 'Conservation', A + 'RewardsThm', A + 'SampleConsistency', A + 'Marginal', A + 'MomentsThm', A + 'MarginalsThm', A + 'EndToEnd3'],
     summary='Proved: deme rewards sum to one and product rewards decompose, per-locus branch rewards sum to the total, first moments are '
             'linear (means decompose), covariance is symmetric; a set of states that is never entered contributes nothing '
             '(accumVal_congr_closed). Partial: positive semi-definiteness needs the probabilistic representation PT1.',
@@ -338,6 +343,7 @@ TABLE['C12'] = dict(
         ('marg_empty_part', 'PG.Marginals.empty_part_zero', 'a part whose reward the functional kills has mean, variance and covariances 0'),
         ('marg_code_demes', 'PG.Marginals.code_deme_marginals', 'all of the above for the code model functional codeRaw (slot additivity from accumVal_slot_linear)'),
         ('marg_no_permute_defect', 'PG.Marginals.Examples.demeCovNoPermute_violates_getCov_symm', 'kernel-checked: permute=False in get_cov with a symmetrised .cov leaves get_cov / corr asymmetric'),
+        ('marg_code_demes_unconditional', 'PG.EndToEnd.code_deme_marginals_unconditional', 'deme marginals of the code functional decompose the total with NO hypothesis on the visited states (DemeShape derived from the BFS invariant 1 <= sum c <= sum cinit)'),
     ])
 
 TABLE['C13'] = dict(
